@@ -322,7 +322,9 @@ class JsonHistoryGC(threading.Thread):
                         end="",
                         file=sys.stderr,
                     )
-            except (OSError, ValueError):
+            except (OSError, ValueError, KeyError):
+                # unreadable, corrupt, or valid JSON that is not a complete
+                # history file (e.g. locked but without "ts")
                 continue
         files.sort()  # this sorts by elements of the tuple,
         # the first of which just happens to be file mod time.
